@@ -450,7 +450,11 @@ def r7_unset_all(F, R, M, drivers):
             t = Sd.operand(c.id, c.d['args'][1])
             k = fold_const(t)
             if k is not None:
-                unset.add(k)
+                # only an unset that happens on every path of Drop counts (a queue stays registered with the device whether
+                # or not a request happens to be outstanding)
+                same = [c2.id for c2 in calls if fold_const(Sd.operand(c2.id, c2.d['args'][1])) == k]
+                if all(sgd.always_before(same, e_) for e_ in sgd.exits):
+                    unset.add(k)
                 continue
             vs = range_values(Sd, t)
             if vs is None:
